@@ -122,21 +122,24 @@ def parsePartialKeyRecord (s : Str) : Option (Str × Str × Str × String) := do
 
 variable (hmac : Bytes → Bytes → Bytes) (h160 : Bytes → Bytes)
 
-/-- descriptor.parse_full_key_record (the returned dict, restricted to the keys __init__ reads) -/
-def parseFullKeyRecord (s : Str) : Option KeyRecord := do
+/-- descriptor.parse_full_key_record (the returned dict, restricted to the keys __init__ reads): the text must
+    end with `/<int>/*`; the rest is a partial key record; the account child of the xpub must be derivable and
+    serialisable (`xpub_child`) -/
+def parseFullKeyRecord (s : Str) : Option KeyRecord :=
   let parts := split '/' s
   let n := parts.length
   if parts.getLast? ≠ some ['*'] then none
-  if n < 2 then none   -- parts[-2]: IndexError
-  let acct := parts.getD (n - 2) []
-  if ¬ isIntable acct then none
-  let partialStr := join '/' (parts.take (n - 2))
-  let (xfp, path, xpub, _) ← parsePartialKeyRecord hash256 partialStr
-  let ai ← pyInt acct
-  let parent ← HDPub.parse hash256 xpub
-  let child ← parent.childI hmac h160 ai
-  let _ ← child.xpub hash256 none
-  pure { xfp := xfp, path := path, xpubParent := xpub, accountIndex := ai }
+  else if n < 2 then none   -- parts[-2]: IndexError
+  else
+    let acct := parts.getD (n - 2) []
+    if ¬ isIntable acct then none
+    else
+      (parsePartialKeyRecord hash256 (join '/' (parts.take (n - 2)))).bind fun (xfp, path, xpub, _) =>
+        (pyInt acct).bind fun ai =>
+          (HDPub.parse hash256 xpub).bind fun parent =>
+            (parent.childI hmac h160 ai).bind fun child =>
+              (child.xpub hash256 none).map fun _ =>
+                { xfp := xfp, path := path, xpubParent := xpub, accountIndex := ai }
 
 end
 
@@ -264,17 +267,15 @@ def matchDescriptor (s : Str) : Option (Str × Str × Option Str) :=
 section
 variable (hash256 : Bytes → Bytes) (hmac : Bytes → Bytes → Bytes) (h160 : Bytes → Bytes)
 
-/-- P2WSHSortedMulti.parse -/
-def parse (outputRecord : Str) : Option Desc := do
+/-- P2WSHSortedMulti.parse: with a `#` anywhere in the record the checksum group must have matched; the
+    threshold may not exceed the number of key records; then the constructor (no re-sorting) -/
+def parse (outputRecord : Str) : Option Desc :=
   let rec_ := unescapeSlashes (strip outputRecord)
-  let (mStr, krsStr, csGroup) ← matchDescriptor rec_
-  let checksum ←
-    if rec_.contains '#' then (match csGroup with | some c => some c | none => none)
-    else some []
-  let m ← pyInt mStr
-  let krs ← (split ',' krsStr).mapM (parseFullKeyRecord hash256 hmac h160)
-  if m > (krs.length : Int) then none
-  construct hash256 m krs checksum false
+  (matchDescriptor rec_).bind fun (mStr, krsStr, csGroup) =>
+    (if rec_.contains '#' then csGroup else some []).bind fun checksum =>
+      (pyInt mStr).bind fun m =>
+        ((split ',' krsStr).mapM (parseFullKeyRecord hash256 hmac h160)).bind fun krs =>
+          if m > (krs.length : Int) then none else construct hash256 m krs checksum false
 
 end
 
